@@ -1,6 +1,7 @@
 package test
 
 import (
+	"io"
 	"bytes"
 	"errors"
 	"strings"
@@ -45,6 +46,7 @@ type modelFS struct {
 	root    *fsNode
 	byPath  map[string]*fsNode
 	files   map[*os.File]*bytes.Reader
+	dirs    map[*os.File]*[]fs.DirEntry
 	opens   map[string]int
 	readdir map[string]int
 	failAt  string // path whose os call fails
@@ -122,7 +124,32 @@ func (m *modelFS) install() {
 		}
 		f := new(os.File)
 		m.files[f] = bytes.NewReader(n.content)
+		if kindOf(n.mode) == 0 {
+			// a directory handle: entries are handed out by (*os.File).ReadDir
+			var ents []fs.DirEntry
+			for _, c := range n.children {
+				ents = append(ents, fsInfo{c})
+			}
+			m.dirs[f] = &ents
+		}
 		return f, nil
+	})
+	verifrt.Replace("(*os.File).ReadDir", func(f *os.File, n int) ([]fs.DirEntry, error) {
+		rest, ok := m.dirs[f]
+		if !ok {
+			return nil, errFS
+		}
+		if n <= 0 || n >= len(*rest) {
+			out := *rest
+			*rest = nil
+			if n > 0 && len(out) == 0 {
+				return nil, io.EOF // the documented end-of-directory signal for n > 0
+			}
+			return out, nil
+		}
+		out := (*rest)[:n]
+		*rest = (*rest)[n:]
+		return out, nil
 	})
 	verifrt.Replace("(*os.File).Read", func(f *os.File, p []byte) (int, error) { return m.files[f].Read(p) })
 	verifrt.Replace("(*os.File).Close", func(f *os.File) error { return nil })
@@ -243,7 +270,7 @@ func VerifRecursiveImport() {
 		materialise(root, p)
 		lnk, _, err = builder.BuildUnixFSRecursive(p, ls)
 	} else {
-		m = &modelFS{root: root, byPath: map[string]*fsNode{}, files: map[*os.File]*bytes.Reader{}, opens: map[string]int{}, readdir: map[string]int{}}
+		m = &modelFS{root: root, byPath: map[string]*fsNode{}, files: map[*os.File]*bytes.Reader{}, dirs: map[*os.File]*[]fs.DirEntry{}, opens: map[string]int{}, readdir: map[string]int{}}
 		m.index(root, "/t/r")
 		m.install()
 		lnk, _, err = builder.BuildUnixFSRecursive("/t/r", ls)
